@@ -70,6 +70,8 @@ fn parse_file(tokens: &mut [RawToken]) -> Vec<LogicalLine> {
     let mut lines = FxHashMap::default();
     let mut attributed_directives = FxHashSet::default();
     for pass_tokens in tree.passes() {
+        #[cfg(feature = "verif")]
+        crate::verif::bump(|c| c.parser_passes += 1);
         let pass_lines =
             InternalDelphiLogicalLineParser::new(tokens, &pass_tokens, &mut attributed_directives)
                 .parse();
@@ -1890,6 +1892,8 @@ impl<'a, 'b> InternalDelphiLogicalLineParser<'a, 'b> {
             return;
         }
         loop {
+            #[cfg(feature = "verif")]
+            crate::verif::bump(|c| c.parser_tokens += 1);
             if let Some(token_index) = self.get_current_token_index() {
                 self.get_current_logical_line_mut().tokens.push(token_index);
                 if let Some(TT::CompilerDirective) = self.get_current_token_type() {
@@ -1962,6 +1966,8 @@ impl<'a, 'b> InternalDelphiLogicalLineParser<'a, 'b> {
     }
 
     fn get_token_index<const OFFSET: isize>(&self) -> Option<usize> {
+        #[cfg(feature = "verif")]
+        crate::verif::bump(|c| c.parser_lookups += 1);
         fn find_token_index<'elem, const OFFSET: isize, I: Iterator<Item = &'elem usize>>(
             parser: &LLP,
             iter: I,
@@ -2534,6 +2540,11 @@ impl<T> From<NonEmptyVec<T>> for Vec<T> {
 }
 
 mod directive_tree;
+
+#[cfg(feature = "verif")]
+pub(crate) fn verif_passes(tokens: &[RawToken]) -> Vec<Vec<usize>> {
+    DirectiveTree::parse(tokens).passes().collect()
+}
 
 // Tests
 
